@@ -412,6 +412,9 @@ func main() {
 	if phase == "split" {
 		outName = "_stage_defs"
 		n := rng.Intn(spec.MaxChunks + 1)
+		if len(spec.ChunkChoices) > 0 {
+			n = spec.ChunkChoices[rng.Intn(len(spec.ChunkChoices))]
+		}
 		if rule.Chunks > 0 {
 			n = rule.Chunks - 1
 		}
